@@ -22,7 +22,8 @@ RULE = ("cases: random recipes, assumption dictionaries over leaves and sub-prop
         "R both non-empty and the assumed model is still a compound; distinct by (shape digest, which ids D names and how)")
 BUDGET = {"quick": (8, 160, 60), "thorough": (16, 2500, 900)}
 MANDATORY = ["judged:assume-then-evaluate==evaluate-union", "judged:bounds-contain", "contract:AtLeast.assume",
-             "count:D-names-compound-constant", "count:D-names-compound-interval", "count:D-interval-leaf"]
+             "count:D-names-compound-constant", "count:D-names-compound-interval", "count:D-interval-leaf",
+             "judged:kept-assumed-model-still-equivalent"]
 
 _n = 0
 
@@ -173,6 +174,32 @@ def _run_one(case, ctx):
         d = rand_assumption(rng, graph, top)
         m = recipes.fresh(case["recipe"])
         ctx.call("assume", m.assume, d)
+    # several assumptions on ONE base object (the assumed models are kept alive): each assumed model must still satisfy the
+    # equation after the later calls -- the right-hand side is always evaluated on a freshly built model
+    if rng.random() < 0.5:
+        base = recipes.fresh(case["recipe"])
+        kept = []
+        comp = [c for c in refmodel.compounds(graph, top) if c != top]
+        # every dictionary of the sequence names the same sub-proposition ids C: a call then overwrites whatever an earlier
+        # call left on those nodes (the known C09 rebinding), so the sequence itself stays inside C07's statement
+        C = rng.sample(comp, rng.randint(1, min(2, len(comp)))) if comp else []
+        for j in range(3):
+            d = {k_: v_ for k_, v_ in rand_assumption(rng, graph, top).items() if graph[k_]["leaf"]}
+            for c in C:
+                d[c] = rng.choice([0, 1, (0, 1), puan.Bounds(1, 1), (0, 0), (0, 1)])
+            a = ctx.call("assume", base.assume, d)
+            kept.append((dict(d), a))
+        ids, _b = common.leaf_box(graph, top)
+        for d, a in kept:
+            rest = [i for i in ids if i not in d]
+            for R, _ex in refmodel.assignments(rest, [graph[i]["b"] for i in rest], rng, 4):
+                lhs = ctx.call("evaluate(assumed)", a.evaluate, dict(R))
+                union = dict(d)
+                union.update(R)
+                rhs = ctx.call("evaluate(fresh)", recipes.fresh(case["recipe"]).evaluate, union)
+                ctx.check(common.as_tuple(lhs) == common.as_tuple(rhs), "kept-assumed-model-still-equivalent",
+                          lambda: {"recipe": case["recipe"], "D": d, "R": R, "assumed_then_evaluate": common.as_tuple(lhs), "evaluate_union_on_fresh_model": common.as_tuple(rhs),
+                                   "note": "after further assume() calls on the same base object"})
 
 
 def run_case(case, ctx):
